@@ -2,5 +2,6 @@ SPECIFICATION Spec
 CONSTANTS
   RewriteNullable = TRUE
   SkipThroughAll = TRUE
+  FirstPasses = 0
 INVARIANT Sound
 CHECK_DEADLOCK FALSE
